@@ -11,7 +11,6 @@ import (
 	"fmt"
 	"io"
 	"net"
-	"sync"
 	"time"
 
 	"github.com/bio-routing/bio-rd/net/tcp"
@@ -30,7 +29,7 @@ type Conn struct {
 	local  *net.TCPAddr
 	remote *net.TCPAddr
 
-	mu         sync.Mutex // real; short critical sections only
+	mu         simrt.InternalLock // short critical sections only (race build: invisible to the detector, like a kernel socket)
 	rbuf       []byte
 	rEOF       bool
 	rwaiters   []chan struct{}
